@@ -323,6 +323,13 @@ func exporterRows() []xrow {
 			if setting == "endpoint" {
 				opts = []byte{'a', 'v', 'e', 'u', 'i'}
 			}
+			// a variable that is set to the empty string is an unset variable
+			for _, sg := range [][2]byte{{'e', 'a'}, {'e', 'v'}, {'a', 'e'}, {'v', 'e'}} {
+				rows = append(rows, xrow{kind: kind, setting: setting, opt: 'a', spec: sg[0], gen: sg[1]})
+				if setting == "compression" {
+					rows = append(rows, xrow{kind: kind, setting: setting, opt: 'a', spec: sg[0], gen: sg[1], dir: 1})
+				}
+			}
 			for _, o := range opts {
 				for _, s := range []byte{'a', 'v', 'i'} {
 					for _, g := range []byte{'a', 'v', 'i'} {
@@ -361,7 +368,7 @@ var invalidTimeout = []string{"abc", "-5", "1.5", "99999999999999999999", " "}
 
 func runExporterRow(k *vf.Case, r xrow) {
 	r.invalidVariant = k.R.Intn(1 << 24)
-	pathVariant := k.R.Intn(1 << 16)
+	pathVariant := k.Index*7 + int(k.C.Seed) // every URL shape comes up in every pass, whatever the seed
 	clearEnv()
 	defer clearEnv()
 	sig := signalOf(r.kind)
@@ -384,6 +391,14 @@ func runExporterRow(k *vf.Case, r xrow) {
 		return err, finished
 	}
 	want := winner(r)
+	applyEmpty := func(name string) {
+		if r.spec == 'e' {
+			os.Setenv(specKey(name), "")
+		}
+		if r.gen == 'e' {
+			os.Setenv(genKey(name), "")
+		}
+	}
 	a := optAtoms{noRetry: true}
 	switch r.setting {
 	case "endpoint":
@@ -409,7 +424,11 @@ func runExporterRow(k *vf.Case, r xrow) {
 			case 2:
 				specPath, wantSpecPath = "/spec/path/", "/spec/path/"
 			}
-			switch (pathVariant / 3) % 4 {
+			switch (pathVariant / 3) % 6 {
+			case 4: // a base path that itself ends in the signal path: the signal path is appended all the same
+				genBase, wantGenPath = signalPath(r.kind), signalPath(r.kind)+signalPath(r.kind)
+			case 5:
+				genBase, wantGenPath = "/tenant-a"+signalPath(r.kind)+"/", "/tenant-a"+signalPath(r.kind)+signalPath(r.kind)
 			case 1:
 				genBase = "/gen/base/"
 			case 2:
@@ -446,6 +465,7 @@ func runExporterRow(k *vf.Case, r xrow) {
 		case 'i':
 			os.Setenv(genKey("ENDPOINT"), invalidEndpoints[(r.invalidVariant/3)%len(invalidEndpoints)])
 		}
+		applyEmpty("ENDPOINT")
 		e, err := build(r.kind, a)
 		if err != nil {
 			fail("exporter-constructor-error", r.setting, err.Error())
@@ -574,6 +594,7 @@ func runExporterRow(k *vf.Case, r xrow) {
 				os.Setenv(genKey("COMPRESSION"), valGen)
 			}
 		}
+		applyEmpty(map[string]string{"headers": "HEADERS", "compression": "COMPRESSION"}[r.setting])
 		e, err := build(r.kind, a)
 		if err != nil {
 			fail("exporter-constructor-error", r.setting, err.Error())
@@ -686,6 +707,7 @@ func runExporterRow(k *vf.Case, r xrow) {
 			case 'i':
 				os.Setenv(genKey("TIMEOUT"), invalidTimeout[(r.invalidVariant/3)%len(invalidTimeout)])
 			}
+			applyEmpty("TIMEOUT")
 			e, err := build(r.kind, a)
 			if err != nil {
 				srv.Close()
@@ -853,6 +875,14 @@ func sdkRows() []srow {
 	for _, key := range []string{"OTEL_SPAN_ATTRIBUTE_COUNT_LIMIT", "OTEL_ATTRIBUTE_COUNT_LIMIT", "OTEL_SPAN_EVENT_COUNT_LIMIT", "OTEL_SPAN_LINK_COUNT_LIMIT", "OTEL_EVENT_ATTRIBUTE_COUNT_LIMIT", "OTEL_LINK_ATTRIBUTE_COUNT_LIMIT",
 		"OTEL_SPAN_ATTRIBUTE_VALUE_LENGTH_LIMIT", "OTEL_ATTRIBUTE_VALUE_LENGTH_LIMIT"} {
 		add("spanlimits", key, "7")
+	}
+	// both size options together, in both orders: options are taken as given, whatever the order
+	for _, order := range []string{"batch-first", "queue-first"} {
+		for _, env := range []string{"", "64", "100000"} {
+			for _, sizes := range []string{"256/1024", "4096/8192", "7/7"} {
+				rows = append(rows, srow{comp: "bsporder", key: order + " " + sizes, env: env})
+			}
+		}
 	}
 	// the span-specific variable next to the generic one (documented: the span-specific one wins when set)
 	for _, key := range []string{"OTEL_SPAN_ATTRIBUTE_COUNT_LIMIT", "OTEL_SPAN_ATTRIBUTE_VALUE_LENGTH_LIMIT"} {
@@ -1063,6 +1093,30 @@ func runSDKRow(k *vf.Case, r srow) {
 			fail("export-deadline-differs", r.key, fmt.Sprintf("exporter saw %v, effective export timeout %v", e.deadline, cfg.ExportTimeout))
 		}
 		e.mu.Unlock()
+	case "bsporder":
+		if r.env != "" {
+			os.Setenv("OTEL_BSP_MAX_QUEUE_SIZE", r.env)
+		}
+		var order string
+		var batch, queue int
+		fmt.Sscanf(r.key, "%s %d/%d", &order, &batch, &queue)
+		opts := []sdktrace.BatchSpanProcessorOption{sdktrace.WithMaxExportBatchSize(batch), sdktrace.WithMaxQueueSize(queue)}
+		if order == "queue-first" {
+			opts[0], opts[1] = opts[1], opts[0]
+		}
+		var bsp sdktrace.SpanProcessor
+		if !k.Guard("panic", "NewBatchSpanProcessor "+r.key, func() { bsp = sdktrace.NewBatchSpanProcessor(&recSpanExp{}, opts...) }) {
+			return
+		}
+		cfg, ok := marshalConfig(bsp)
+		if !ok {
+			fail("cannot-observe", "MarshalLog", "")
+			return
+		}
+		if cfg.MaxExportBatchSize != batch || cfg.MaxQueueSize != queue {
+			fail("effective-value", "bsp size options "+order, fmt.Sprintf("WithMaxExportBatchSize(%d) and WithMaxQueueSize(%d) given (%s), OTEL_BSP_MAX_QUEUE_SIZE=%q: effective batch %d queue %d", batch, queue, order, r.env, cfg.MaxExportBatchSize, cfg.MaxQueueSize))
+		}
+		bsp.Shutdown(ctx)
 	case "blrp":
 		if r.env != "" {
 			os.Setenv(r.key, r.env)
